@@ -663,6 +663,11 @@ type c05Rep struct {
 	cfg    c05Config
 	raised map[string]bool // classes already raised for this input (by any configuration)
 	input  string
+	// nullTop: top-level members the document writes as null (violation class "-null").
+	nullTop map[string]bool
+	// soft != nil: the document writes optional *element* members as null, which the statement
+	// does not speak about; element-level classes are handed to soft (recorded), not raised.
+	soft func(class string)
 }
 
 func c05Trim(s string, n int) string {
@@ -675,6 +680,10 @@ func c05Trim(s string, n int) string {
 // violate raises class once per input: under the default configuration with its plain key,
 // under another configuration only if the default did not show it (suffix @config).
 func (rp *c05Rep) violate(class, what string) {
+	if rp.soft != nil && (strings.Contains(class, "/elements/") || strings.Contains(class, "/unmarshal-error/") || strings.Contains(class, "/nil-mismatch")) {
+		rp.soft(class)
+		return
+	}
 	if rp.raised[class] {
 		return
 	}
@@ -805,6 +814,8 @@ func c05Compare(rp *c05Rep, path string, want, got *osm.OSM, visUnset map[string
 	for _, t := range top {
 		switch {
 		case t.w == t.g:
+		case t.w == "" && rp.nullTop[t.name]:
+			rp.violate(path+"/top/"+t.name+"-null", fmt.Sprintf("top-level %s is null but comes back as the text %q", t.name, t.g))
 		case t.w == "":
 			rp.violate(path+"/top/"+t.name+"-absent", fmt.Sprintf("top-level %s is absent but comes back as %q", t.name, t.g))
 		default:
@@ -1183,6 +1194,60 @@ type c05Run struct {
 	configs   []c05Config
 	docSig    string
 	boundaryP float64 // probability of each value-side boundary operator in the round-trip flows
+	// null members of the document under check (independent-document flow only), see nullState
+	nullTop map[string]bool
+	soft    func(class string)
+}
+
+// nullState prepares the independent-document flow for documents that write optional members
+// as null. Top-level members: null counts as absent, the statement fixes the outcome (empty,
+// not placeholder text) — asserted, class "…-null". Element members: the statement is silent;
+// the outcome (as absent / differs in <field> / rejected) is recorded per member name in the
+// set null_member_outcomes and never raised. The returned function ends the state.
+func (run *c05Run) nullState(docs ...*jsonw.Doc) func() {
+	names := map[string]bool{}
+	run.nullTop = map[string]bool{}
+	for _, d := range docs {
+		if d == nil {
+			continue
+		}
+		if d.VersionKind == jsonw.VersionNull {
+			run.nullTop["version"] = true
+		}
+		for _, n := range d.NullTop {
+			run.nullTop[strings.TrimPrefix(n, "doc.")] = true
+		}
+		for _, n := range d.NullElem {
+			names[n] = true
+		}
+	}
+	if len(run.nullTop) > 0 {
+		run.res.Add("documents_with_null_toplevel_members", 1)
+	}
+	if len(names) == 0 {
+		return func() { run.nullTop = nil }
+	}
+	var l []string
+	for n := range names {
+		l = append(l, n)
+	}
+	sort.Strings(l)
+	label := strings.Join(l, "+")
+	if len(l) > 2 {
+		label = "several"
+	}
+	classes := map[string]bool{}
+	run.soft = func(class string) { classes[class] = true }
+	run.res.Add("documents_with_null_element_members", 1)
+	return func() {
+		if len(classes) == 0 {
+			run.res.Put("null_member_outcomes", label+" => read as absent")
+		}
+		for c := range classes {
+			run.res.Put("null_member_outcomes", label+" => "+c)
+		}
+		run.nullTop, run.soft = nil, nil
+	}
 }
 
 // boundary applies each boundary operator with probability boundaryP.
@@ -1230,7 +1295,7 @@ func (run *c05Run) unmarshalFlow(path, errClass string, text []byte, newTarget f
 	raised := map[string]bool{}
 	dumps := map[string]string{}
 	for _, cfg := range run.configs {
-		rp := &c05Rep{res: run.res, cfg: cfg, raised: raised, input: string(text)}
+		rp := &c05Rep{res: run.res, cfg: cfg, raised: raised, input: string(text), nullTop: run.nullTop, soft: run.soft}
 		target := newTarget()
 		var err error
 		var calls int
@@ -1381,17 +1446,11 @@ func (run *c05Run) checkDoc(d *jsonw.Doc, st *jsonw.Style, r *gen.R, standalone 
 	if run.res.Sample == nil {
 		run.res.Sample = map[string]any{"flow": "indep", "style": st.Describe(), "document": c05Trim(string(text), 700)}
 	}
-	assertVersion := d.VersionKind != jsonw.VersionNull
+	finish := run.nullState(d)
 	run.unmarshalFlow("indep", "document", text, func() any { return &osm.OSM{} }, func(rp *c05Rep, got any) {
-		g := got.(*osm.OSM)
-		if !assertVersion {
-			if g.Version != "" {
-				rp.res.Add("version_null_came_back_nonempty", 1)
-			}
-			g.Version = ""
-		}
-		c05Compare(rp, "indep", eq.Clone(ex.o), g, ex.visUnset)
+		c05Compare(rp, "indep", eq.Clone(ex.o), got.(*osm.OSM), ex.visUnset)
 	}, true)
+	finish()
 
 	// marshal round trip of the value the document denotes, plus annotations
 	v := eq.Clone(ex.o)
@@ -1454,6 +1513,8 @@ func (run *c05Run) checkChange(c *jsonw.ChangeDoc, st *jsonw.Style, r *gen.R) {
 	if run.res.Sample == nil {
 		run.res.Sample = map[string]any{"flow": "indep/change", "style": st.Describe(), "document": c05Trim(string(text), 700)}
 	}
+	finish := run.nullState(c.Create, c.Modify, c.Delete)
+	defer finish()
 	// visibility left unsaid inside blocks: mask by copying (blocks are compared without the
 	// per-kind table, so patch the expectation instead)
 	run.unmarshalFlow("indep/change", "document", text, func() any { return &osm.Change{} }, func(rp *c05Rep, got any) {
@@ -1465,9 +1526,6 @@ func (run *c05Run) checkChange(c *jsonw.ChangeDoc, st *jsonw.Style, r *gen.R) {
 		}{{c.Create, w.Create, g.Create}, {c.Modify, w.Modify, g.Modify}, {c.Delete, w.Delete, g.Delete}} {
 			if p.d == nil || p.g == nil {
 				continue
-			}
-			if p.d.VersionKind == jsonw.VersionNull {
-				p.g.Version = ""
 			}
 			vu := c05Expect(p.d).visUnset
 			if len(p.g.Nodes) == len(p.w.Nodes) && len(p.g.Ways) == len(p.w.Ways) && len(p.g.Relations) == len(p.w.Relations) {
@@ -2044,6 +2102,27 @@ func c05Concurrent(res *fw.Result, c fw.Case) {
 	res.Eval("concurrent|" + c.Variant)
 }
 
+// c05NullNames lists the optional members of a kind (and of relation members) that the
+// generator can write as null.
+func c05NullNames(kind string) []string {
+	seen := map[string]bool{}
+	var out []string
+	for _, set := range []map[string]bool{{}, {"relation.members": true}} {
+		g := jsonw.NewGen(gen.New(1, "c05nullnames"), &jsonw.Fixed{Set: set})
+		g.NullElemP = 1
+		for i := 0; i < 6; i++ {
+			for _, n := range g.ElementNulls(g.Element(kind)) {
+				if !seen[n] {
+					seen[n] = true
+					out = append(out, n)
+				}
+			}
+		}
+	}
+	sort.Strings(out)
+	return out
+}
+
 // c05BoundaryBase builds the base containers of the boundary-value enumeration.
 func c05BoundaryBase(k int, r *gen.R) *osm.OSM {
 	two := func(p jsonw.Presence) *osm.OSM {
@@ -2161,6 +2240,46 @@ func c05Exec(c fw.Case) *fw.Result {
 				res.Put("toggled_parts", fmt.Sprintf("%s/%v", n, invert))
 			}
 		}
+	case "null":
+		// the third state of an optional member: written as null
+		switch c.Int("level") {
+		case 0:
+			// top level (asserted): each member alone, all together, next to present ones
+			for _, only := range []string{"doc.version", "doc.generator", "doc.copyright", "doc.attribution", "doc.license", "doc.bounds", ""} {
+				for _, pp := range []float64{0, 0.5} {
+					g := jsonw.NewGen(r, jsonw.Random{R: r, P: pp})
+					g.NullTopP, g.NullOnly = 1, only
+					d := g.Doc(r.Range(0, 3), 7)
+					run.checkDoc(d, c05Style(r), r, false)
+					res.Put("null_toplevel_members", strings.Join(d.NullTop, "+")+fmt.Sprint(d.VersionKind == jsonw.VersionNull))
+				}
+				g := jsonw.NewGen(r, jsonw.Random{R: r, P: 0.3})
+				g.NullTopP, g.NullOnly = 1, only
+				run.checkChange(g.ChangeDoc(2), c05Style(r), r)
+			}
+		default:
+			// element level (recorded): each member name alone
+			kind := jsonw.Kinds[c.Int("kind")]
+			for _, name := range c05NullNames(kind) {
+				for i := 0; i < 2; i++ {
+					g := jsonw.NewGen(r, jsonw.Random{R: r, P: 0.4})
+					g.NullElemP, g.NullOnly = 1, name
+					d := &jsonw.Doc{VersionKind: jsonw.VersionString, Version: "0.6"}
+					for j := 0; j < 3; j++ {
+						d.Elements = append(d.Elements, g.Element(kind))
+					}
+					g.DocNulls(d)
+					run.checkDoc(d, c05Style(r), r, false)
+				}
+			}
+			if kind == "node" {
+				g := jsonw.NewGen(r, jsonw.Random{R: r, P: 0.5})
+				g.NullElemP = 1
+				d := &jsonw.Doc{VersionKind: jsonw.VersionNumber, Version: "0.6", NoElements: true}
+				g.DocNulls(d) // "elements": null
+				run.checkDoc(d, c05Style(r), r, false)
+			}
+		}
 	case "forms":
 		for i := 0; i < int(c.Int("docs")); i++ {
 			g := jsonw.NewGen(r, jsonw.Random{R: r, P: float64(c.Int("p")) / 100})
@@ -2250,6 +2369,7 @@ func c05Exec(c fw.Case) *fw.Result {
 			g.Exotic = c.Int("exotic") == 1
 			g.Unknown = c.Int("unknown") == 1
 			g.ZeroP = float64(c.Int("zerop")) / 100
+			g.NullTopP = float64(c.Int("nulltop")) / 100
 			d := g.Doc(r.Intn(int(c.Int("maxelem"))+1), int(c.Int("mask")))
 			run.checkDoc(d, c05Style(r), r, i%4 == 0)
 		}
@@ -2307,6 +2427,10 @@ func c05Cases(tier string, seed uint64) []fw.Case {
 		cs = append(cs, fw.Case{Kind: "field", Seed: gen.Sub(seed, "c05field", k), P: map[string]int64{"kind": int64(k), "allconfigs": 1}})
 	}
 	cs = append(cs, fw.Case{Kind: "unknown-type", Seed: gen.Sub(seed, "c05unk", 0)})
+	cs = append(cs, fw.Case{Kind: "null", Seed: gen.Sub(seed, "c05null", 0), P: map[string]int64{"level": 0, "allconfigs": 1}})
+	for k := range jsonw.Kinds {
+		cs = append(cs, fw.Case{Kind: "null", Seed: gen.Sub(seed, "c05null", 1+k), P: map[string]int64{"level": 1, "kind": int64(k)}})
+	}
 	for b := 0; b < 4; b++ {
 		for sl := 0; sl < 4; sl++ { // same seed: the four slices share one base container
 			cs = append(cs, fw.Case{Kind: "boundary-value", Seed: gen.Sub(seed, "c05bval", b), P: map[string]int64{"base": int64(b), "slice": int64(sl), "allconfigs": 1}})
@@ -2351,6 +2475,9 @@ func c05Cases(tier string, seed uint64) []fw.Case {
 		if i%5 == 4 {
 			p["zerop"] = 25
 		}
+		if i%7 == 6 {
+			p["nulltop"] = 30
+		}
 		if i%3 == 2 {
 			p["bp"] = 8
 		}
@@ -2376,7 +2503,8 @@ func init() {
 			"One evaluation = one (model, flow, configuration); a signature is (flow, configuration, version spelling, top-level presence mask, bounds, unknown keys, element kinds present).",
 		Assumptions: []string{
 			"top-level bounds are not an element: a document or value with bounds must marshal to well-formed osmjson and unmarshal without error; bounds that come back must be the right ones, bounds that do not come back are only counted (toplevel_bounds_not_returned)",
-			"an element that leaves \"visible\" unsaid may come back visible or not; version: null at top level is run but the resulting Version text is not asserted (counted)",
+			"an element that leaves \"visible\" unsaid may come back visible or not",
+			"null is the third state of an optional member (JavaScript / Python writers serialise a missing value that way): at top level (version, generator, copyright, attribution, license, bounds) null counts as absent and must stay empty rather than become text such as \"null\" or \"<nil>\" — asserted; for optional members of elements (user, uid, timestamp, tags, nodes, members, role, ...) and for elements: null the statement is silent — the outcome per member (read as absent / differs / rejected) is recorded in null_member_outcomes and never raised; type and id are never null",
 			"element types this library does not know (Overpass count / area) are run for panics and configuration agreement only",
 			"a way without nodes may be written with nodes absent, null or []; tags are generated with unique keys (osmjson cannot carry duplicates)",
 			"json-iterator cannot run on this toolchain; the installed codec is encoding/json with SetEscapeHTML(false), indented output and UseNumber, so version numbers are limited to literals that print back identically from float64",
@@ -2391,7 +2519,7 @@ func init() {
 		// the recording codec) or written before the goroutines start
 		RaceIsViolation: true,
 		Post: func(tier string, agg *fw.Agg) {
-			for _, name := range []string{"codec_marshal_argument_types", "codec_unmarshal_target_types"} {
+			for _, name := range []string{"codec_marshal_argument_types", "codec_unmarshal_target_types", "null_member_outcomes"} {
 				var l []string
 				for t := range agg.Sets[name] {
 					l = append(l, t)
